@@ -7,7 +7,8 @@ LEVEL_TEXT = ("Coq theorems over the SMTP session + Deliver model, for every con
               "the deliveries made equal what the dialogue alone entitles (delivery_exact), only a DATA block answered 250 adds "
               "anything, one message per accepted storable recipient, no other mailbox changes; carried to the abstract store of C07 and "
               "through its two refinement theorems to both back-end models (store_holds_what_dialogue_entitles, "
-              "both_backends_agree_on_deliveries); tied to the code by a byte-level "
+              "both_backends_agree_on_deliveries) and to the DISK model of the file store: mail acknowledged with 250 is listed, in order, after any "
+              "number of restarts (acknowledged_mail_survives_restart, with C10/C11's filedisk_refines_storespec); tied to the code by a byte-level "
               "correspondence check of whole SMTP dialogues against real sessions on both real stores, with the `entitled` "
               "specification evaluated on the implementation's own replies and store contents as the oracle")
 LEVEL_NOTE = ("Coq kernel; extraction (ExtrOcamlBasic); the MAIL argument patterns run as the RE2 programs Go compiles them to (regenerated from the source by pins, "
